@@ -6,9 +6,48 @@ Property theorems only; helper lemmas live in `Lemmas/Adversarial.lean`.
   `torchInner`, `torchTiny`, `torchUnit`, `torchGrad` (and the `tf…` twins) are GENERATED from the
   Python source by harness/lifters/adv_projection.py; the theorems that mention them are re-checked
   against what the source says now.
+
+CLAUSE -> THEOREM TABLE (review R2; property text: properties.jsonl C16)
+  (1) "each training step changes every parameter tensor W of the predictor along g"
+        whole_step_feeds_optimisers (any optimisers), whole_step_sgd + whole_step_sgd_pointwise (plain SGD: W' = W - lr*g per
+        tensor, = `predictorStep`), whole_step_keeps_all_tensors (no tensor is dropped), predictor_follows_combined,
+        observed_recovers_gradient (what the harness reads off recovers g)
+  (2) "g = dLP/dW - proj_{dLA/dW}(dLP/dW) - alpha*dLA/dW"
+        torch_step_is_combine, torch_whole_step_direction, update_matrix_is_combine, update_is_projection_residual;
+        literal source lines = normalised model: torch_literal_form / tf_literal_form (regulariser tiny = 0) and
+        torch_literal_form_tiny / tf_literal_form_tiny (the regulariser as written: coefficient <B,A>/(|B|+tiny)^2)
+  (3) "the projection uses the ordinary (Frobenius) inner product of that tensor"
+        torch_projection_is_frobenius, tf_projection_is_frobenius (generated kinds), frobenius_is_flat_dot;
+        counter-model: sumInner_ne_frobenius_two_rows, sumInner_update_not_orthogonal, sumInner_eq_frobenius_single_row
+  (4) "so g + alpha*dLA/dW is orthogonal to dLA/dW"
+        orthogonal, engine_orthogonal, torch_step_orthogonal, tf_step_orthogonal (model = exact arithmetic, tiny dropped for
+        dLA/dW != 0).  PARTIAL for the literal text: literal_tiny_orthogonality_defect gives the EXACT residual
+        <A,B> * (1 - |B|^2/(|B|+tiny)^2) of the three source lines, literal_tiny_not_orthogonal proves it is non-zero whenever
+        tiny > 0 and <A,B> != 0.  In float32 |B| + tiny == |B| for |B| >= 2^-102, so the defect is below resolution there;
+        for 0 < |dLA/dW| <~ 1e-22 the float32 norm underflows and the code's update is off by ~1/tiny (review finding,
+        replayed on real fairlearn; the harness does not judge tensors with max|entry| < 1e-18).
+        dLA/dW = 0: zero_branch, torch_zero_gradient_keeps_dLP, step_total_iff_tiny_survives, torch_step_total (g = dLP/dW, no NaN)
+  (5) "the adversary's parameters follow the plain gradient of its own loss LA"
+        adversary_plain_gradient, whole_step_sgd (adversary part), lifted_train_step_gradients (appliedA = 0*dLP + 1*dLA + 0*stale),
+        step_eq_stepFromBookkeeping_lifted (the whole-step function IS the step dictated by the lifted statement list),
+        tf_adversary_plain_gradient_structural (TensorFlow, structural only)
+  (6) "for every layer shape (vectors and matrices with several rows)"
+        all theorems quantify over `Mat = List (List Rat)` with `sameShape`; a bias is a one-row matrix.  Tensors of rank > 2
+        (not produced by the Linear layers of the quantifier) are covered only through their flattening (`orthogonal` on `Vec`).
+  (7) "for demographic parity and for equalized odds (where the adversary also sees y)"
+        lifted_adversary_sees_y_iff_equalized_odds, lifted_loss_dependencies
+  (8) "alpha >= 0, learning rates; observed through plain-SGD optimisers": every theorem holds for all rational alpha and lr
+        (lr != 0 where the observation divides by it); optimisers are parameters (`Opt`), `sgd` / `sgdMomentum` instances.
+  Driver ops used by harness/props/c16.py -> model function -> theorem:
+    adv.step torch -> predictorStep torchStep -> predictor_follows_combined, torch_step_is_combine, whole_step_sgd_pointwise
+    adv.grad ref -> gradWith .frobenius -> update_matrix_is_combine;  adv.grad suminner -> engineGrad .sumInner -> sumInner_update_not_orthogonal
+    adv.sgd -> adversaryStep -> adversary_plain_gradient;  trainstep.applied -> TrainStepL.lifted -> lifted_train_step_gradients
+    advstep.fit -> SchedL.fitSrc over AdvStep.trainStepRec -> C17.src_fit_recorded_is_fold_of_steps (Properties/C17.lean)
+  Trusted / not modelled: autograd (gradients are inputs), float32 rounding (model is exact), TensorFlow engine never executed.
 -/
 import FairModel.Lemmas.Adversarial
 import FairModel.Lemmas.AdvStep
+import FairModel.Lemmas.AdvR2
 import FairModel.Model.TrainStepLifted
 
 namespace C16
@@ -21,20 +60,39 @@ theorem orthogonal (a b : Vec) (α : Rat) (hlen : a.length = b.length) (hb : dot
     dot (vadd (combine a b α) (smul α b)) b = 0 :=
   dot_combine_add a b α hlen hb
 
+/- non-vacuity: a = (3,1), b = (1,2), alpha = 1/2 meet BOTH hypotheses (b != 0, a not parallel to b, projection != 0) -/
+example : dot (vadd (combine [3, 1] [1, 2] (1/2)) (smul (1/2) [1, 2])) [1, 2] = 0 :=
+  orthogonal [3, 1] [1, 2] (1/2) (by decide) (by decide +kernel)
+example : combine [3, 1] [1, 2] (1/2) = [3/2, -2] ∧ dot [1, 2] [3, 1] = 5 ∧ dot [1, 2] [1, 2] = 5 := by decide +kernel
+
 /-- ... and it is `a` minus a multiple of `b`, i.e. the projection residual of `a`. -/
 theorem update_is_projection_residual (a b : Vec) (α : Rat) (hlen : a.length = b.length) :
     vadd (combine a b α) (smul α b) = vsub a (smul (dot b a / dot b b) b) :=
   combine_add a b α hlen
+
+example : vadd (combine [3, 1] [1, 2] (1/2)) (smul (1/2) [1, 2]) = vsub [3, 1] (smul (dot [1, 2] [3, 1] / dot [1, 2] [1, 2]) [1, 2]) :=
+  update_is_projection_residual [3, 1] [1, 2] (1/2) (by decide)
+example : vadd (combine [3, 1] [1, 2] (1/2)) (smul (1/2) [1, 2]) = [2, -1] := by decide +kernel
 
 /-- the matrix Frobenius product is the dot product of the flattenings, for every shape
     (any number of rows, any row lengths, as long as the two tensors have the same shape) -/
 theorem frobenius_is_flat_dot (A B : Mat) (h : sameShape A B = true) : frob A B = dot (flat A) (flat B) :=
   frob_eq_dot_flat h
 
+/- non-vacuity: a 2x2 pair and a RAGGED pair of the same shape (rows of length 3 and 1) -/
+example : frob [[1, 2], [3, 4]] [[0, 1], [1, 1]] = dot (flat [[1, 2], [3, 4]]) (flat [[0, 1], [1, 1]]) :=
+  frobenius_is_flat_dot _ _ (by decide +kernel)
+example : frob [[1, 2], [3, 4]] [[0, 1], [1, 1]] = 9 ∧ sameShape [[1, 2, 3], [4]] [[1, 1, 1], [2]] = true ∧
+    frob [[1, 2, 3], [4]] [[1, 1, 1], [2]] = 14 := by decide +kernel
+
 /-- the matrix-level update with the Frobenius product IS `combine` on the flattened tensors -/
 theorem update_matrix_is_combine (A B : Mat) (α : Rat) (h : sameShape A B = true) :
     flat (gradWith .frobenius A B α) = combine (flat A) (flat B) α :=
   flat_gradWith_frobenius α h
+
+example : flat (gradWith .frobenius [[1, 0], [0, 1]] [[1, 1], [0, 1]] 1) = combine [1, 0, 0, 1] [1, 1, 0, 1] 1 :=
+  update_matrix_is_combine _ _ 1 (by decide +kernel)
+example : gradWith .frobenius [[1, 0], [0, 1]] [[1, 1], [0, 1]] 1 = [[-2/3, -5/3], [0, -2/3]] := by decide +kernel
 
 /-! ### which inputs take which branch of the loop body -/
 
@@ -42,12 +100,20 @@ theorem nonzero_branch (k : InnerKind) (t : TinyKind) (A B : Mat) (α : Rat) (hB
     engineGrad k t A B α = some (gradWith k A B α) := by
   simp [engineGrad, hB]
 
+example : engineGrad .frobenius .float64 [[1, 0], [0, 1]] [[1, 1], [0, 1]] 1 = some (gradWith .frobenius [[1, 0], [0, 1]] [[1, 1], [0, 1]] 1) :=
+  nonzero_branch _ _ _ _ 1 (by decide +kernel)
+
 /-- `dLA/dW = 0`: a `tiny` that survives float32 gives `g = dLP/dW` (the projection on the zero tensor is 0);
     the float64 `tiny` vanishes and the engine produces the NaN tensor. -/
 theorem zero_branch (k : InnerKind) (A B : Mat) (α : Rat) (hB : ∀ r ∈ B, ∀ x ∈ r, x = 0) :
     engineGrad k .float32 A B α = some A ∧ engineGrad k .float64 A B α = none := by
   have h0 : frob B B = 0 := (frob_self_eq_zero B).mpr hB
   simp [engineGrad, h0]
+
+/- non-vacuity: a 2x2 zero tensor against a non-zero dLP/dW -/
+example : engineGrad .frobenius .float32 [[1, 2], [3, 4]] [[0, 0], [0, 0]] 1 = some [[1, 2], [3, 4]] ∧
+    engineGrad .frobenius .float64 [[1, 2], [3, 4]] [[0, 0], [0, 0]] 1 = none :=
+  zero_branch .frobenius [[1, 2], [3, 4]] [[0, 0], [0, 0]] 1 (by decide +kernel)
 
 theorem frob_self_zero_iff (B : Mat) : frob B B = 0 ↔ ∀ r ∈ B, ∀ x ∈ r, x = 0 := frob_self_eq_zero B
 
@@ -83,6 +149,11 @@ theorem engine_orthogonal (t : TinyKind) (A B G : Mat) (α : Rat) (h : sameShape
   apply dot_combine_add _ _ _ (sameShape_flat_length h)
   rwa [← frob_eq_dot_flat (sameShape_refl B)]
 
+/- non-vacuity: all three hypotheses at once, 2x2 tensors, dLP/dW not orthogonal to dLA/dW (projection coefficient 2/3) -/
+example : frob (madd [[-2/3, -5/3], [0, -2/3]] (msmul 1 [[1, 1], [0, 1]])) [[1, 1], [0, 1]] = 0 :=
+  engine_orthogonal .float32 [[1, 0], [0, 1]] [[1, 1], [0, 1]] [[-2/3, -5/3], [0, -2/3]] 1 (by decide +kernel) (by decide +kernel)
+    (by decide +kernel)
+
 /-! ### tie to the source (generated definitions) -/
 
 /-- _pytorch_engine.py projects with the Frobenius product (FALSE before fix 4e3c7cd: F4) -/
@@ -98,11 +169,67 @@ theorem torch_literal_form (A B : Mat) (α nrm : Rat) (h : sameShape A B = true)
   engineGradRaw_eq torchUnit torchGrad (by intro b n; simp [torchUnit]) (by intro a u b p α; simp [torchGrad])
     torchInner A B α nrm h hn hn0
 
+/- non-vacuity: dLA/dW = [[3,0],[0,4]] has the RATIONAL norm 5: all three hypotheses hold, and the literal lines give a
+   non-trivial tensor (projection coefficient 7/25) -/
+example : engineGradRaw torchUnit torchGrad torchInner [[1, 2], [3, 1]] [[3, 0], [0, 4]] (1/2) 5 0 =
+    gradWith torchInner [[1, 2], [3, 1]] [[3, 0], [0, 4]] (1/2) :=
+  torch_literal_form _ _ (1/2) 5 (by decide +kernel) (by decide +kernel) (by decide +kernel)
+example : engineGradRaw torchUnit torchGrad torchInner [[1, 2], [3, 1]] [[3, 0], [0, 4]] (1/2) 5 0 =
+    [[-67/50, 2], [3, -53/25]] := by decide +kernel
+
 theorem tf_literal_form (A B : Mat) (α nrm : Rat) (h : sameShape A B = true)
     (hn : nrm * nrm = frob B B) (hn0 : nrm ≠ 0) :
     engineGradRaw tfUnit tfGrad tfInner A B α nrm 0 = gradWith tfInner A B α :=
   engineGradRaw_eq tfUnit tfGrad (by intro b n; simp [tfUnit]) (by intro a u b p α; simp [tfGrad])
     tfInner A B α nrm h hn hn0
+
+example : engineGradRaw tfUnit tfGrad tfInner [[1, 2], [3, 1]] [[3, 0], [0, 4]] (1/2) 5 0 =
+    gradWith tfInner [[1, 2], [3, 1]] [[3, 0], [0, 4]] (1/2) :=
+  tf_literal_form _ _ (1/2) 5 (by decide +kernel) (by decide +kernel) (by decide +kernel)
+
+/-- REVIEW R2. The three source lines WITH the regulariser as written (`unit = dW_LA / (norm + tiny)`), for every `tiny` and
+    every value `nrm` of the norm: the projection coefficient is `<B,A> / (nrm + tiny)²`. -/
+theorem torch_literal_form_tiny (A B : Mat) (α nrm tiny : Rat) (h : sameShape A B = true) :
+    engineGradRaw torchUnit torchGrad torchInner A B α nrm tiny =
+      gradCoef (frob B A / ((nrm + tiny) * (nrm + tiny))) A B α := by
+  have := engineGradRaw_tiny torchUnit torchGrad (by intro b n t; simp [torchUnit]) (by intro a u b p α; simp [torchGrad])
+    torchInner A B α nrm tiny h
+  rwa [torch_projection_is_frobenius] at this
+
+theorem tf_literal_form_tiny (A B : Mat) (α nrm tiny : Rat) (h : sameShape A B = true) :
+    engineGradRaw tfUnit tfGrad tfInner A B α nrm tiny =
+      gradCoef (frob B A / ((nrm + tiny) * (nrm + tiny))) A B α := by
+  have := engineGradRaw_tiny tfUnit tfGrad (by intro b n t; simp [tfUnit]) (by intro a u b p α; simp [tfGrad])
+    tfInner A B α nrm tiny h
+  rwa [tf_projection_is_frobenius] at this
+
+/-- ... hence the EXACT orthogonality residual of the literal lines (exact arithmetic, `nrm² = <B,B>`):
+    `<g + α B, B> = <A,B> · (1 − <B,B> / (nrm + tiny)²)`.  It vanishes for `tiny = 0`; see the next theorem. -/
+theorem literal_tiny_orthogonality_defect (A B : Mat) (α nrm tiny : Rat) (h : sameShape A B = true) :
+    frob (madd (engineGradRaw torchUnit torchGrad torchInner A B α nrm tiny) (msmul α B)) B =
+      frob A B * (1 - frob B B / ((nrm + tiny) * (nrm + tiny))) := by
+  rw [torch_literal_form_tiny A B α nrm tiny h, frob_gradCoef_add _ α h, frob_comm B A]
+  ring
+
+/-- CLAUSE (4) IS NOT EXACTLY TRUE OF THE LITERAL TEXT: with the true norm (`nrm > 0`, `nrm² = <B,B>`) and ANY positive
+    regulariser the three source lines leave a non-zero component along dLA/dW whenever `<dLP/dW, dLA/dW> ≠ 0`.
+    (Relative size `≈ 2·tiny/nrm`: invisible in float32 unless `nrm` itself is near `tiny`.) -/
+theorem literal_tiny_not_orthogonal (A B : Mat) (α nrm tiny : Rat) (h : sameShape A B = true)
+    (hn : nrm * nrm = frob B B) (hn0 : 0 < nrm) (ht : 0 < tiny) (hAB : frob A B ≠ 0) :
+    frob (madd (engineGradRaw torchUnit torchGrad torchInner A B α nrm tiny) (msmul α B)) B ≠ 0 := by
+  rw [literal_tiny_orthogonality_defect A B α nrm tiny h, ← hn]
+  have hpos : 0 < (nrm + tiny) * (nrm + tiny) := by positivity
+  have hlt : nrm * nrm < (nrm + tiny) * (nrm + tiny) := by nlinarith
+  have : nrm * nrm / ((nrm + tiny) * (nrm + tiny)) < 1 := by rw [div_lt_one hpos]; exact hlt
+  exact mul_ne_zero hAB (by linarith)
+
+/- witness, all hypotheses at once: |B| = 5, tiny = 5 (so (nrm+tiny)² = 100), <A,B> = 7: residual 7·(1 − 25/100) = 21/4 -/
+example : frob (madd (engineGradRaw torchUnit torchGrad torchInner [[1, 2], [3, 1]] [[3, 0], [0, 4]] (1/2) 5 5)
+    (msmul (1/2) [[3, 0], [0, 4]])) [[3, 0], [0, 4]] ≠ 0 :=
+  literal_tiny_not_orthogonal _ _ (1/2) 5 5 (by decide +kernel) (by decide +kernel) (by decide +kernel) (by decide +kernel)
+    (by decide +kernel)
+example : frob (madd (engineGradRaw torchUnit torchGrad torchInner [[1, 2], [3, 1]] [[3, 0], [0, 4]] (1/2) 5 5)
+    (msmul (1/2) [[3, 0], [0, 4]])) [[3, 0], [0, 4]] = 21/4 := by decide +kernel
 
 /-- the PyTorch step as written: orthogonal update for every tensor shape with `dLA/dW ≠ 0` -/
 theorem torch_step_orthogonal (A B G : Mat) (α : Rat) (h : sameShape A B = true) (hB : frob B B ≠ 0)
@@ -111,11 +238,17 @@ theorem torch_step_orthogonal (A B G : Mat) (α : Rat) (h : sameShape A B = true
   rw [torch_projection_is_frobenius] at hG
   exact engine_orthogonal _ A B G α h hB hG
 
+example : frob (madd [[-2/3, -5/3], [0, -2/3]] (msmul 1 [[1, 1], [0, 1]])) [[1, 1], [0, 1]] = 0 :=
+  torch_step_orthogonal [[1, 0], [0, 1]] [[1, 1], [0, 1]] _ 1 (by decide +kernel) (by decide +kernel) (by decide +kernel)
+
 theorem tf_step_orthogonal (A B G : Mat) (α : Rat) (h : sameShape A B = true) (hB : frob B B ≠ 0)
     (hG : tfStep A B α = some G) : frob (madd G (msmul α B)) B = 0 := by
   unfold tfStep at hG
   rw [tf_projection_is_frobenius] at hG
   exact engine_orthogonal _ A B G α h hB hG
+
+example : frob (madd [[-2/3, -5/3], [0, -2/3]] (msmul 1 [[1, 1], [0, 1]])) [[1, 1], [0, 1]] = 0 :=
+  tf_step_orthogonal [[1, 0], [0, 1]] [[1, 1], [0, 1]] _ 1 (by decide +kernel) (by decide +kernel) (by decide +kernel)
 
 /-- and its flattening is exactly the documented `g` -/
 theorem torch_step_is_combine (A B : Mat) (α : Rat) (h : sameShape A B = true) (hB : frob B B ≠ 0) :
@@ -123,6 +256,10 @@ theorem torch_step_is_combine (A B : Mat) (α : Rat) (h : sameShape A B = true) 
   unfold torchStep
   rw [torch_projection_is_frobenius, nonzero_branch _ _ _ _ _ hB]
   simp [flat_gradWith_frobenius α h]
+
+example : (torchStep [[1, 0], [0, 1]] [[1, 1], [0, 1]] 1).map flat = some (combine [1, 0, 0, 1] [1, 1, 0, 1] 1) :=
+  torch_step_is_combine _ _ 1 (by decide +kernel) (by decide +kernel)
+example : combine [1, 0, 0, 1] [1, 1, 0, 1] 1 = [-2/3, -5/3, 0, -2/3] := by decide +kernel
 
 /-- the step is defined (no NaN tensor) exactly when the regulariser survives float32 arithmetic -/
 theorem step_total_iff_tiny_survives (k : InnerKind) (t : TinyKind) :
@@ -156,6 +293,9 @@ theorem torch_zero_gradient_keeps_dLP (A B : Mat) (α : Rat) (hB : ∀ r ∈ B, 
   rw [torch_tiny_survives_float32]
   exact (zero_branch torchInner A B α hB).1
 
+example : torchStep [[1, 2], [3, 4]] [[0, 0], [0, 0]] (5/2) = some [[1, 2], [3, 4]] :=
+  torch_zero_gradient_keeps_dLP _ _ (5/2) (by decide +kernel)
+
 /-- TensorFlow engine, structural (lifted from the source, never executed here): the adversary optimiser applies the
     plain gradient of LA w.r.t. the adversary's own variables; the loop combines dLP/dW and dLA/dW of the predictor. -/
 theorem tf_adversary_plain_gradient_structural :
@@ -167,6 +307,11 @@ theorem tf_adversary_plain_gradient_structural :
 
 section WholeStep
 open AdvStep
+
+/-- example data of this section: predictor with a 2x2 weight and a bias, adversary with one 1x2 weight -/
+def exModel : Model Unit Unit := ⟨⟨[[[1, 0], [0, 1]], [[1, 1]]], [(), ()]⟩, ⟨[[[2, 4]]], [()]⟩⟩
+/-- dLP/dW, dLA/dW (the bias has dLA/db = 0: the zero branch), dLA/dU -/
+def exGrads : Grads := ⟨[[[1, 0], [0, 1]], [[1, 0]]], [[[1, 1], [0, 1]], [[0, 0]]], [[[4, 8]]]⟩
 
 /-- What each optimiser is handed, for ANY pair of optimisers: the predictor's optimiser gets, tensor by tensor, the
     engine's rule applied to (dLP/dW_i, dLA/dW_i); the adversary's optimiser gets dLA/dU_j unchanged. -/
@@ -186,6 +331,14 @@ theorem whole_step_feeds_optimisers {τP τA : Type} (eng : Mat → Mat → Rat 
     have := combineAll_spec eng α _ _ gs hc
     exact ⟨gs, rfl, this.1, this.2, rfl, rfl⟩
 
+/- non-vacuity: the hypothesis `step … = some m'` is met by the example model (alpha = 1, lr 1/2 and 1/4) -/
+example : ∃ gs, combineAll torchStep 1 exGrads.dWLP exGrads.dWLA = some gs ∧ exGrads.dWLP.length = exGrads.dWLA.length ∧
+    List.Forall₂ (fun ab G => torchStep ab.1 ab.2 1 = some G) (exGrads.dWLP.zip exGrads.dWLA) gs := by
+  obtain ⟨m', h⟩ := Option.isSome_iff_exists.mp
+    (show (step torchStep 1 (sgd (1/2)) (sgd (1/4)) exModel exGrads).isSome = true by decide +kernel)
+  obtain ⟨gs, h1, h2, h3, _⟩ := whole_step_feeds_optimisers torchStep 1 (sgd (1/2)) (sgd (1/4)) exModel m' exGrads h
+  exact ⟨gs, h1, h2, h3⟩
+
 /-- With plain SGD the predictor moves exactly along `−lr_P · g_i` (g_i = the engine's combined gradient of tensor i)
     and the adversary along `−lr_A · dLA/dU_j`. -/
 theorem whole_step_sgd (eng : Mat → Mat → Rat → Option Mat) (α lrP lrA : Rat) (m m' : Model Unit Unit) (g : Grads)
@@ -199,11 +352,75 @@ theorem whole_step_sgd (eng : Mat → Mat → Rat → Option Mat) (α lrP lrA : 
   · rw [← applyOpt_sgd lrP _ _ gs hP, ← h1]
   · rw [← applyOpt_sgd lrA _ _ g.dULA hA, ← h2]
 
+/- non-vacuity: all three hypotheses at once; the resulting parameters are non-trivial (see the last example of the file) -/
+example : ∃ m' gs, step torchStep 1 (sgd (1/2)) (sgd (1/4)) exModel exGrads = some m' ∧
+    m'.pred.params = List.zipWith (fun W G => msub W (msmul (1/2) G)) exModel.pred.params gs ∧
+    m'.adv.params = List.zipWith (fun U d => msub U (msmul (1/4) d)) exModel.adv.params exGrads.dULA := by
+  obtain ⟨m', h⟩ := Option.isSome_iff_exists.mp
+    (show (step torchStep 1 (sgd (1/2)) (sgd (1/4)) exModel exGrads).isSome = true by decide +kernel)
+  obtain ⟨gs, _, h2, h3⟩ := whole_step_sgd torchStep 1 (1/2) (1/4) exModel m' exGrads (by decide) (by decide) h
+  exact ⟨m', gs, h, h2, h3⟩
+
+/-- REVIEW R2. The same, tensor by tensor, in terms of the two single-tensor functions the driver ops `adv.step` and
+    `adv.sgd` evaluate (`predictorStep`, `adversaryStep`): every predictor tensor is `predictorStep eng W_i A_i B_i α lr_P`,
+    every adversary tensor is `adversaryStep U_j dU_j lr_A`. -/
+theorem whole_step_sgd_pointwise (eng : Mat → Mat → Rat → Option Mat) (α lrP lrA : Rat) (m m' : Model Unit Unit) (g : Grads)
+    (hP : m.pred.state.length = m.pred.params.length) (hA : m.adv.state.length = m.adv.params.length)
+    (h : step eng α (sgd lrP) (sgd lrA) m g = some m') :
+    List.Forall₂ (fun (wab : Mat × Mat × Mat) W' => predictorStep eng wab.1 wab.2.1 wab.2.2 α lrP = some W')
+      (m.pred.params.zip (g.dWLP.zip g.dWLA)) m'.pred.params ∧
+    m'.adv.params = List.zipWith (fun U d => adversaryStep U d lrA) m.adv.params g.dULA := by
+  obtain ⟨gs, hf, h1, h2⟩ := whole_step_sgd eng α lrP lrA m m' g hP hA h
+  refine ⟨?_, by simpa [adversaryStep] using h2⟩
+  rw [h1]
+  clear h1 h2 h hP hA
+  generalize m.pred.params = Ws
+  generalize g.dWLP.zip g.dWLA = abs at hf
+  induction hf generalizing Ws with
+  | nil => cases Ws <;> simp
+  | cons hab _ ih =>
+    cases Ws with
+    | nil => simp
+    | cons W Ws =>
+      simp only [List.zip_cons_cons, List.zipWith_cons_cons]
+      exact List.Forall₂.cons (by simp [predictorStep, hab]) (ih Ws)
+
+/-- REVIEW R2 (totalisation). The `zip`s of the model drop nothing: when autograd delivers one gradient per tensor, the
+    step keeps the number of tensors (and of optimiser states) of both players. -/
+theorem whole_step_keeps_all_tensors {τP τA : Type} (eng : Mat → Mat → Rat → Option Mat) (α : Rat) (optP : Opt τP)
+    (optA : Opt τA) (m m' : Model τP τA) (g : Grads) (hP : m.pred.state.length = m.pred.params.length)
+    (hA : m.adv.state.length = m.adv.params.length) (hgP : g.dWLP.length = m.pred.params.length)
+    (hgU : g.dULA.length = m.adv.params.length) (h : step eng α optP optA m g = some m') :
+    m'.pred.params.length = m.pred.params.length ∧ m'.pred.state.length = m.pred.params.length ∧
+    m'.adv.params.length = m.adv.params.length ∧ m'.adv.state.length = m.adv.params.length :=
+  step_lengths eng α optP optA m m' g hP hA hgP hgU h
+
+example : ∃ m', step torchStep 1 (sgd (1/2)) (sgd (1/4)) exModel exGrads = some m' ∧ m'.pred.params.length = 2 ∧
+    m'.adv.params.length = 1 := by
+  obtain ⟨m', h⟩ := Option.isSome_iff_exists.mp
+    (show (step torchStep 1 (sgd (1/2)) (sgd (1/4)) exModel exGrads).isSome = true by decide +kernel)
+  have := whole_step_keeps_all_tensors torchStep 1 (sgd (1/2)) (sgd (1/4)) exModel m' exGrads (by decide) (by decide)
+    (by decide) (by decide) h
+  exact ⟨m', h, this.1, this.2.2.1⟩
+
+/-- ERROR BRANCH: gradient lists of different lengths (cannot happen with autograd: one `.grad` per parameter) give the
+    undefined model, not a silently shorter parameter list -/
+theorem whole_step_length_mismatch_undefined {τP τA : Type} (eng : Mat → Mat → Rat → Option Mat) (α : Rat)
+    (optP : Opt τP) (optA : Opt τA) (m : Model τP τA) (g : Grads) (h : g.dWLP.length ≠ g.dWLA.length) :
+    step eng α optP optA m g = none := by
+  unfold step
+  cases hc : combineAll eng α g.dWLP g.dWLA with
+  | none => rfl
+  | some gs => exact absurd (combineAll_spec eng α _ _ gs hc).1 h
+
 /-- the PyTorch step (loop body as lifted from the source) is defined for every list of gradient tensors: no NaN model -/
 theorem torch_whole_step_defined {τP τA : Type} (α : Rat) (optP : Opt τP) (optA : Opt τA) (m : Model τP τA) (g : Grads)
     (hlen : g.dWLP.length = g.dWLA.length) : (step torchStep α optP optA m g).isSome = true := by
   obtain ⟨gs, hgs, _⟩ := combineAll_total torchStep α (fun A B => torch_step_total A B α) _ _ hlen
   simp [step, hgs]
+
+example : (step torchStep 1 (sgd (1/2)) (sgd (1/4)) exModel exGrads).isSome = true :=
+  torch_whole_step_defined 1 (sgd (1/2)) (sgd (1/4)) exModel exGrads (by decide)
 
 /-- direction of one predictor tensor under the PyTorch engine: the documented
     `g = dLP/dW − proj_{dLA/dW}(dLP/dW) − α·dLA/dW` (Frobenius projection), with `g + α·dLA/dW ⟂ dLA/dW`;
@@ -225,6 +442,13 @@ theorem torch_whole_step_direction (A B G : Mat) (α : Rat) (hs : sameShape A B 
     have := torch_zero_gradient_keeps_dLP A B α hz
     rw [h] at this
     exact Option.some.inj this
+
+/- non-vacuity, non-zero branch (2x2, projection coefficient 2/3) and zero branch (bias with dLA/db = 0) -/
+example : flat [[-2/3, -5/3], [0, -2/3]] = combine (flat [[1, 0], [0, 1]]) (flat [[1, 1], [0, 1]]) 1 :=
+  ((torch_whole_step_direction [[1, 0], [0, 1]] [[1, 1], [0, 1]] [[-2/3, -5/3], [0, -2/3]] 1 (by decide +kernel)
+    (by decide +kernel)).1 (by decide +kernel)).1
+example : ([[1, 0]] : Mat) = [[1, 0]] :=
+  (torch_whole_step_direction [[1, 0]] [[0, 0]] [[1, 0]] 1 (by decide +kernel) (by decide +kernel)).2 (by decide +kernel)
 
 end WholeStep
 
@@ -267,6 +491,24 @@ theorem lifted_adversary_sees_y_iff_equalized_odds :
   intro ny p
   cases p <;> simp [adversaryInputWidth, adversaryInput]
 
+/-- REVIEW R2 — the bridge between the two halves of the tie. `AdvR2.stepFromBookkeeping ts` is the whole training step
+    DICTATED by a bookkeeping result `ts` (which buffers each optimiser applies, read as lists of autograd gradients);
+    at the bookkeeping LIFTED from the statement list of `train_step` it is exactly `AdvStep.step` — the function the
+    driver ops `advstep.step` / `advstep.fit` evaluate and `whole_step_*` talk about — for every engine rule, optimisers,
+    model and gradients.  A source edit that changes what an optimiser is handed changes `lifted` and breaks this proof. -/
+theorem step_eq_stepFromBookkeeping_lifted {τP τA : Type} (eng : Adversarial.Mat → Adversarial.Mat → Rat → Option Adversarial.Mat)
+    (α : Rat) (optP : AdvStep.Opt τP) (optA : AdvStep.Opt τA) (m : AdvStep.Model τP τA) (g : AdvStep.Grads) :
+    AdvR2.stepFromBookkeeping lifted eng α optP optA m g = AdvStep.step eng α optP optA m g := by
+  obtain ⟨h1, _, _, h4, h5⟩ := lifted_train_step_gradients
+  exact AdvR2.stepFromBookkeeping_documented lifted h1 h4 h5 eng α optP optA m g
+
+/-- … whereas the statement list WITHOUT the clearing between the two backward passes dictates no documented step at all -/
+theorem dropped_clearing_dictates_no_step {τP τA : Type} (eng : Adversarial.Mat → Adversarial.Mat → Rat → Option Adversarial.Mat)
+    (α : Rat) (optP : AdvStep.Opt τP) (optA : AdvStep.Opt τA) (m : AdvStep.Model τP τA) (g : AdvStep.Grads) :
+    AdvR2.stepFromBookkeeping (run dependsOn [.zeroGrad .predictor, .zeroGrad .adversary, .backward .LP, .snapshot .dW_LP,
+      .backward .LA, .snapshot .dW_LA, .combine, .step .predictor, .step .adversary] init) eng α optP optA m g = none :=
+  AdvR2.stepFromBookkeeping_accumulated _ accumulation_without_clearing eng α optP optA m g
+
 end TrainStepStructure
 
 /-! ### why single-row tests cannot see F4 -/
@@ -276,6 +518,10 @@ theorem sumInner_eq_frobenius_single_row (U A : Mat) (hU : U.length = 1) (hA : A
     sumInner U A = frob U A := by
   match U, A, hU, hA with
   | [u], [a], _, _ => simp [sumInner_single]
+
+example : sumInner [[1, 2, 3]] [[4, 5, 6]] = frob [[1, 2, 3]] [[4, 5, 6]] :=
+  sumInner_eq_frobenius_single_row _ _ (by decide) (by decide)
+example : frob [[1, 2, 3]] [[4, 5, 6]] = 32 := by decide +kernel
 
 /-- ... but not for several rows: a 2×2 witness -/
 theorem sumInner_ne_frobenius_two_rows :
@@ -294,6 +540,9 @@ theorem observed_recovers_gradient (W g : Vec) (lr : Rat) (h : W.length = g.leng
     observed W (sgdStep W g lr) lr = g :=
   observed_sgdStep W g lr h hlr
 
+example : observed [1, 2] (sgdStep [1, 2] [4, 8] (1/4)) (1/4) = [4, 8] :=
+  observed_recovers_gradient [1, 2] [4, 8] (1/4) (by decide) (by decide +kernel)
+
 /-- the adversary's parameters follow the plain gradient of its own loss LA -/
 theorem adversary_plain_gradient (U dU : Mat) (lr : Rat) (h : sameShape U dU = true) (hlr : lr ≠ 0) :
     flat (adversaryStep U dU lr) = sgdStep (flat U) (flat dU) lr ∧
@@ -303,6 +552,12 @@ theorem adversary_plain_gradient (U dU : Mat) (lr : Rat) (h : sameShape U dU = t
     rw [flat_msub (sameShape_msmul_right lr h), flat_msmul]
   exact ⟨e, by rw [e]; exact observed_sgdStep _ _ lr (sameShape_flat_length h) hlr⟩
 
+/- non-vacuity: a 2x2 adversary tensor, lr = 1/4 -/
+example : flat (adversaryStep [[2, 4], [1, 0]] [[4, 8], [0, 4]] (1/4)) = sgdStep [2, 4, 1, 0] [4, 8, 0, 4] (1/4) ∧
+    observed [2, 4, 1, 0] (flat (adversaryStep [[2, 4], [1, 0]] [[4, 8], [0, 4]] (1/4))) (1/4) = [4, 8, 0, 4] :=
+  adversary_plain_gradient [[2, 4], [1, 0]] [[4, 8], [0, 4]] (1/4) (by decide +kernel) (by decide +kernel)
+example : adversaryStep [[2, 4], [1, 0]] [[4, 8], [0, 4]] (1/4) = [[1, 2], [1, -1]] := by decide +kernel
+
 /-- the predictor's parameters move along the combined gradient -/
 theorem predictor_follows_combined (eng : Mat → Mat → Rat → Option Mat) (W A B G : Mat) (α lr : Rat)
     (hG : eng A B α = some G) (h : sameShape W G = true) (hlr : lr ≠ 0) :
@@ -310,6 +565,12 @@ theorem predictor_follows_combined (eng : Mat → Mat → Rat → Option Mat) (W
   refine ⟨msub W (msmul lr G), by simp [predictorStep, hG], ?_⟩
   rw [flat_msub (sameShape_msmul_right lr h), flat_msmul]
   exact observed_sgdStep _ _ lr (sameShape_flat_length h) hlr
+
+/- non-vacuity: the PyTorch engine on the 2x2 pair, lr = 1/2: all three hypotheses at once -/
+example : ∃ W', predictorStep torchStep [[1, 0], [0, 1]] [[1, 0], [0, 1]] [[1, 1], [0, 1]] 1 (1/2) = some W' ∧
+    observed (flat [[1, 0], [0, 1]]) (flat W') (1/2) = flat [[-2/3, -5/3], [0, -2/3]] :=
+  predictor_follows_combined torchStep [[1, 0], [0, 1]] [[1, 0], [0, 1]] [[1, 1], [0, 1]] [[-2/3, -5/3], [0, -2/3]] 1 (1/2)
+    (by decide +kernel) (by decide +kernel) (by decide +kernel)
 
 /-! ### non-vacuity -/
 example : dot [1, 2] [1, 2] ≠ 0 := by decide +kernel
